@@ -193,3 +193,38 @@ def params_close(got, want, rtol=1e-4, atol=1e-5):
 
 def plist(p):
   return {k: np.asarray(v, np.float64).round(6).tolist() for k, v in p.items()}
+
+
+class TransientError(Exception):
+  """Raised once by a client's batch preprocessor (a transient I/O failure while the round is running)."""
+
+
+def failing_once(client):
+  """(cid, dataset, key) -> same client whose batch preprocessor raises TransientError on its first invocation."""
+  import fedjax
+  from fedjax.core import client_datasets as cds
+  cid, ds, key = client
+  fired = []
+
+  def boom(x):
+    if not fired:
+      fired.append(1)
+      raise TransientError('transient failure while reading client %r' % cid)
+    return x
+  return (cid, fedjax.ClientDataset(ds.raw_examples, cds.BatchPreprocessor([boom])), key)
+
+
+def aborted_round(alg, state, cohort):
+  """Runs a round that fails at its last non-empty client; returns True if the round indeed aborted."""
+  idx = [i for i, c in enumerate(cohort) if len(c[1]) > 0]
+  if len(idx) < 2:
+    return False
+  bad = list(cohort)
+  bad[idx[-1]] = failing_once(cohort[idx[-1]])
+  try:
+    alg.apply(state, bad)
+  except TransientError:
+    return True
+  except Exception as e:  # wrapped by a backend (ForEachClientError) or similar
+    return True
+  return False
